@@ -652,7 +652,7 @@ func (c *Client) handleAgentCallback(event Event) { //nolint:cyclop
 	// Doing re-transmission.
 	transaction.attempt++
 	buff := bufferPool.Get().(*buffer) //nolint:forcetypeassert
-	buff.buf = buff.buf[:copy(buff.buf[:cap(buff.buf)], transaction.raw)]
+	buff.buf = append(buff.buf[:0], transaction.raw...)
 	defer bufferPool.Put(buff)
 	var (
 		now     = c.clock.Now()
